@@ -177,6 +177,13 @@ crate::verif_env! {
 fn c10_n2_claim_tree_256_children_rejected() { wide_case(256, Some(0)) }
 }
 
+/// Root with 256 children that all exist already (no storage to claim: the cheapest witness of "256 is refused").
+crate::verif_env! {
+#[kani::proof]
+#[kani::unwind(260)]
+fn c10_n2_root_256_existing_children_rejected() { wide_case(256, None) }
+}
+
 /// Nested: a New child that itself has 256 children is rejected before anything is claimed.
 crate::verif_env! {
 #[kani::proof]
@@ -444,5 +451,45 @@ fn c10_n3c_ref_count_steps_composed() {
 	}
 	kani::cover!(unsafe { RS_INSERTS } == 3 && unsafe { RS_REMOVES } == 1);
 	std::mem::forget(w); std::mem::forget(overlays); std::mem::forget(col);
+}
+}
+
+// =====================================================================================
+// C10.X: children given as existing addresses (HashColumn::claim_children_to_data): each address is packed verbatim, in
+// order, little-endian, and — unless the column is append-only — every such child gets one IncrementReference, whatever
+// the column's `ref_counted` option says (that option governs root counts; interior counts live in the ref-count table
+// of every non-append-only multitree column). Children vector backed by a typed static (10.3, lesson 4).
+// =====================================================================================
+pub static mut CH_STORE: std::mem::MaybeUninit<[NodeRef; 2]> = std::mem::MaybeUninit::uninit();
+crate::verif_env! {
+#[kani::proof]
+#[kani::unwind(10)]
+fn c10_x_existing_children_are_counted() {
+	let append_only: bool = kani::any();
+	let mut col = mini_mt(append_only, Vec::new(), 4, 0);
+	col.ref_counted = kani::any();
+	let a: [u64; 2] = kani::any();
+	let children: Vec<NodeRef> = unsafe { CH_STORE.as_mut_ptr().write([NodeRef::Existing(a[0]), NodeRef::Existing(a[1])]); Vec::from_raw_parts(CH_STORE.as_mut_ptr() as *mut NodeRef, 2, 2) };
+	let tier_addresses: HashMap<usize, Vec<u64>> = Default::default();
+	let mut tier_index: HashMap<usize, usize> = Default::default();
+	let mut node_values: Vec<NodeChange> = Vec::with_capacity(4);
+	let mut data: Vec<u8> = Vec::with_capacity(32);
+	{
+		let tables = col.tables.read();
+		let tref = col.as_ref(&tables.value);
+		col.claim_children_to_data(&children, tref, &tier_addresses, &mut tier_index, &mut node_values, &mut data).unwrap();
+	}
+	assert!(data.len() == 16, "C10.X each child address takes eight bytes");
+	let i: usize = kani::any();
+	kani::assume(i < 16);
+	assert!(data[i] == a[i / 8].to_le_bytes()[i % 8], "C10.X existing child addresses are packed verbatim, in order, little-endian");
+	if append_only {
+		assert!(node_values.len() == 0, "C10.X append-only columns keep no interior counts");
+	} else {
+		assert!(node_values.len() == 2, "C10.X every child given as an existing address gets one extra reference");
+		assert!(matches!(node_values[0], NodeChange::IncrementReference(x) if x == a[0]) && matches!(node_values[1], NodeChange::IncrementReference(x) if x == a[1]), "C10.X the extra reference goes to the named node");
+	}
+	kani::cover!(!append_only && !col.ref_counted);
+	std::mem::forget(children); std::mem::forget(node_values); std::mem::forget(data); std::mem::forget(col);
 }
 }
